@@ -3,7 +3,7 @@
  "name": "revoke_set_test",
  "props": ["C03"],
  "level": "U",
- "tier": "wip",
+ "tier": "quick",
  "harness": "h_revoke_single",
  "enforce": ["jbd2_journal_set_revoke", "jbd2_journal_test_revoke"],
  "replace": ["find_revoke_record", "insert_revoke_hash"],
@@ -19,7 +19,7 @@
  "name": "revoke_history",
  "props": ["C03"],
  "level": "P",
- "tier": "wip",
+ "tier": "quick",
  "harness": "h_revoke_history",
  "replace": ["jbd2_journal_set_revoke", "jbd2_journal_test_revoke"],
  "includes": ["e2fsck"],
@@ -49,7 +49,7 @@
  "name": "revoke_set_test_debugfs",
  "props": ["C03"],
  "level": "U",
- "tier": "wip",
+ "tier": "quick",
  "harness": "h_revoke_single",
  "enforce": ["jbd2_journal_set_revoke", "jbd2_journal_test_revoke"],
  "replace": ["find_revoke_record", "insert_revoke_hash"],
@@ -65,7 +65,7 @@
  "name": "revoke_history_debugfs",
  "props": ["C03"],
  "level": "P",
- "tier": "wip",
+ "tier": "quick",
  "harness": "h_revoke_history",
  "replace": ["jbd2_journal_set_revoke", "jbd2_journal_test_revoke"],
  "includes": ["e2fsck", "debugfs"],
